@@ -23,15 +23,15 @@ type Violation struct {
 // Explorer performs a depth-first, preemption-bounded exploration of all
 // schedules (and data choices) of Body.
 type Explorer struct {
-	Name     string
-	Bound    int // preemption bound
+	Name  string
+	Bound int // preemption bound
 	// FreeBound bounds the non-default choices at points where switching costs
 	// no preemption (running thread blocked or yielding, time passing, data
 	// choices). Poll loops make the space of such choices cyclic, so they need
 	// their own bound for the search tree to be finite. <0: unbounded.
 	FreeBound int
-	Cfg      Config
-	Body     func()
+	Cfg       Config
+	Body      func()
 	// Check is the oracle, evaluated on every execution. It returns an
 	// observation string (for distinct-outcome counting) and nil or a violation.
 	Check    func(e *Exec) (obs string, v *Violation)
@@ -41,19 +41,19 @@ type Explorer struct {
 	NShards  int
 	MaxViol  int
 
-	Execs      int64
+	Execs       int64
 	Transitions int64
-	MaxPoints  int
-	Longest    []int // prefix of the longest execution seen
-	States     map[uint64]struct{}
-	Outcomes   map[string]int64
-	Viols      []*Violation
-	violKeys   map[string]bool
-	Capped     string
-	HarnessErr string
-	Sample     []string // trace of the first execution
-	rootKid    int
-	stop       bool
+	MaxPoints   int
+	Longest     []int // prefix of the longest execution seen
+	States      map[uint64]struct{}
+	Outcomes    map[string]int64
+	Viols       []*Violation
+	violKeys    map[string]bool
+	Capped      string
+	HarnessErr  string
+	Sample      []string // trace of the first execution
+	rootKid     int
+	stop        bool
 }
 
 // Explore runs the search and returns when the bounded space is exhausted, a
